@@ -67,8 +67,8 @@ class CaseBuilder:
         self._op("roundtrip", {"op": "roundtrip", "src": src, "dst": k, "fast": fast}, "o_roundtrip %s" % r, (src,), k)
         return k
 
-    def info(self, src):
-        return self._op("info", {"op": "info", "src": src}, "o_info %s %s" % (self.g, self.sl(src)), (src,))
+    def info(self, src, kind="info"):
+        return self._op(kind, {"op": "info", "src": src}, "o_info %s %s" % (self.g, self.sl(src)), (src,))
 
     def named(self, src):
         return self._op("named", {"op": "named", "src": src}, "o_named %s %s" % (self.g, self.sl(src)), (src,))
@@ -80,7 +80,8 @@ class CaseBuilder:
     def eq(self, a, b):
         return self._op("eq", {"op": "eq", "a": a, "b": b}, "o_eq %s %s" % (self.sl(a), self.sl(b)), (a, b))
 
-    def solve(self, method, iters, max_reg=0.0, threads=1, params=None, draws=None, yield_seed=0, record=False):
+    def solve(self, method, iters, max_reg=0.0, threads=1, params=None, draws=None, yield_seed=0, record=False,
+              kind="solve"):
         """params: None | preset name | [a, b, g, w] floats; draws: None | {"chance": [[..]], "player": [[..]]}"""
         k = self.slot()
         sname = "s%d_%d" % (self.cid, k)
@@ -92,7 +93,7 @@ class CaseBuilder:
         else:
             cp = "(params_new %s)" % " ".join(coq_float(x) for x in params)
             jp = [f2b(x) for x in params]
-        if draws is None:
+        if draws is None or "weighted_seed" in draws:
             cd = "no_draw"
         else:
             tab = lambda rows: coq_list([coq_list([coq_N(v) for v in r]) for r in rows])
@@ -102,7 +103,7 @@ class CaseBuilder:
         self._def(self.sl(k), "p_of_solved %s" % sname)
         js = {"op": "solve", "dst": k, "method": method, "iters": iters, "max_reg": f2b(max_reg),
               "threads": threads, "params": jp, "draws": draws, "yield_seed": yield_seed, "record": record}
-        self._op("solve", js, "o_solved %s" % sname, (), k)
+        self._op(kind, js, "o_solved %s" % sname, (), k)
         return k
 
     def raw(self, kind, js, defs, out, srcs=(), dst=None):
@@ -193,6 +194,8 @@ def _split_named(items, is_multi):
 
 def compare_op(kind, impl, model, rel=1e-9, multi_names=None):
     """Returns None if implementation and model agree on this op, else a description."""
+    if kind.endswith("_long"):
+        kind = kind[:-5]
     si, pi = norm_impl_simple(impl)
     errs = SERR if kind in ("import", "roundtrip") else None
     sm, pm = norm_model_simple(model, errs)
